@@ -382,11 +382,13 @@ def exact_need(ctx, facts, cfg):
                 if st['k'] == 'assign' and st['lhs']['l'] == 1 and len(st['lhs']['p']) == 2 and st['lhs']['p'][0] == '*':
                     flds0[st['lhs']['p'][1].get('f')] = strip(core.strip_var_ids(b0.canon_rv(st['rv'])))
 
-        def res0(x):
-            if isinstance(x, tuple) and x and x[0] == 'field' and x[1] == ('deref', ('param', 'self')) and x[2] in flds0:
-                return res0(flds0[x[2]])
+        def res0(x, seen=()):
+            # a field stands for what it was assigned -- unless that value depends on the field's old content
+            # (`self.len = self.len.max(len)`: the stored value is not a function of the parameters alone)
+            if isinstance(x, tuple) and x and x[0] == 'field' and x[1] == ('deref', ('param', 'self')) and x[2] in flds0 and x[2] not in seen:
+                return res0(flds0[x[2]], seen + (x[2],))
             if isinstance(x, tuple):
-                return tuple(res0(y) for y in x)
+                return tuple(res0(y, seen) for y in x)
             return x
         for bb, t in b0.calls():
             if re.search(r'Vec::<.*>::resize$', t['callee'].get('path') or ''):
